@@ -163,6 +163,55 @@ theorem near_div {j k : ℕ} {x x' y y' : ℝ} (hx : Near M j x x') (hy : Near M
     rw [this]
     exact inv_anti₀ (pow_pos (one_sub_pos M) k) g1
 
+theorem near_neg {k : ℕ} {x y : ℝ} (hn : Near M k x y) : Near M k (-x) (-y) := by
+  obtain ⟨f, hy, h1, h2⟩ := hn
+  exact ⟨f, by rw [hy]; ring, h1, h2⟩
+
+theorem near_zero (k : ℕ) : Near M k 0 0 :=
+  ⟨1, by ring, pow_le_one₀ (one_sub_pos M).le (one_sub_le_one M), one_le_pow₀ (one_le_b M)⟩
+
+theorem near_sqrt {k : ℕ} {x y : ℝ} (hx : 0 ≤ x) (hn : Near M k x y) : Near M k (Real.sqrt x) (Real.sqrt y) := by
+  obtain ⟨f, hy, h1, h2⟩ := hn
+  have hlow : 0 < (1 - M.u) ^ k := pow_pos (one_sub_pos M) k
+  have hf0 : 0 ≤ f := le_trans hlow.le h1
+  have hlow1 : (1 - M.u) ^ k ≤ 1 := pow_le_one₀ (one_sub_pos M).le (one_sub_le_one M)
+  have hup1 : 1 ≤ (b M) ^ k := one_le_pow₀ (one_le_b M)
+  have hg0 : 0 ≤ Real.sqrt f := Real.sqrt_nonneg f
+  have hgg : Real.sqrt f * Real.sqrt f = f := Real.mul_self_sqrt hf0
+  refine ⟨Real.sqrt f, by rw [hy, Real.sqrt_mul hx], ?_, ?_⟩
+  · rcases le_total f 1 with h | h
+    · have hg1 : Real.sqrt f ≤ 1 := by
+        by_contra hc; rw [not_le] at hc; nlinarith
+      have : f ≤ Real.sqrt f := by nlinarith
+      linarith
+    · have : 1 ≤ Real.sqrt f := by
+        by_contra hc; rw [not_le] at hc; nlinarith
+      linarith
+  · rcases le_total f 1 with h | h
+    · have hg1 : Real.sqrt f ≤ 1 := by
+        by_contra hc; rw [not_le] at hc; nlinarith
+      linarith
+    · have hg1 : 1 ≤ Real.sqrt f := by
+        by_contra hc; rw [not_le] at hc; nlinarith
+      have : Real.sqrt f ≤ f := by nlinarith
+      linarith
+
+/-- absolute form of `Near`: |y - x| ≤ (b^k - 1)·|x| (no side condition on k·u) -/
+theorem near_abs {k : ℕ} {x y : ℝ} (hn : Near M k x y) : |y - x| ≤ ((b M) ^ k - 1) * |x| := by
+  obtain ⟨f, hy, h1, h2⟩ := hn
+  have hlow : 0 < (1 - M.u) ^ k := pow_pos (one_sub_pos M) k
+  have hprod : (1 - M.u) ^ k * (b M) ^ k = 1 := by rw [← mul_pow, mul_comm, b_mul, one_pow]
+  have hup1 : 1 ≤ (b M) ^ k := one_le_pow₀ (one_le_b M)
+  have hf : |f - 1| ≤ (b M) ^ k - 1 := by
+    rw [abs_le]; constructor
+    · -- 1 - f ≤ 1 - (1-u)^k ≤ b^k - 1  since (1-u)^k + b^k ≥ 2
+      have : 2 ≤ (1 - M.u) ^ k + (b M) ^ k := by nlinarith [sq_nonneg ((b M) ^ k - 1), sq_nonneg ((1 - M.u) ^ k - 1)]
+      linarith
+    · linarith
+  have : y - x = x * (f - 1) := by rw [hy]; ring
+  rw [this, abs_mul, mul_comm]
+  exact mul_le_mul_of_nonneg_right hf (abs_nonneg x)
+
 /-- Bernoulli: (1-u)^k ≥ 1 - k u -/
 theorem pow_ge (k : ℕ) : 1 - k * M.u ≤ (1 - M.u) ^ k := by
   have h := one_add_mul_le_pow (a := -M.u) (by have := M.u_lt; linarith) k
